@@ -13,6 +13,11 @@ length L in 1..32767, record numbers and the file length are unbounded symbolic 
            at or beyond the end; LOC becomes n; nothing is written to the file
   lof    : the file length, position restored
   _check_pos: Bad record number exactly outside 1..2^25 (integer record numbers)
+Contents byte for byte (second group of tasks): with a concrete record length and file length
+(case parameters) and symbolic file and field bytes, through the real FieldFile.get_buffer /
+set_buffer: after PUT n the file is the old file, zero-extended, with exactly record n replaced;
+every GET m returns record m of that file (the bytes PUT for m = n, zeros beyond the end or for
+the missing tail of a partial last record).
 Locks are C26's contract (stubbed here: access granted).
 """
 
@@ -167,7 +172,79 @@ def t_check_pos(E):
     E.prove(not r0.raised and r0.value is None, 'no record number: implicit position')
 
 
+# ---------------------------------------------------------------------------
+# record contents byte for byte: concrete record length, symbolic file and field contents,
+# the real FieldFile.get_buffer / set_buffer over a real Field buffer
+
+from pcbasic.basic.memory import memory as memory_mod
+
+
+class _FH(object):
+    _pyvc_trusted = True
+    def seek(self, *a):
+        pass
+    def tell(self):
+        return 0
+
+
+def _content_file(E, L, flen):
+    f = object.__new__(diskfiles.RandomFile)
+    old = [E.int('file[%d]' % i, 0, 255) for i in range(flen)]
+    f._fhandle = SymStream(list(old))
+    f.reclen = L
+    f._locks = _Locks()
+    f._number = 1
+    field = object.__new__(memory_mod.Field)
+    fb = [E.int('field[%d]' % i, 0, 255) for i in range(L)]
+    field._buffer = SBuf(list(fb), 'bytearray') if E.mode == 'symbolic' else bytearray(fb)
+    ff = object.__new__(diskfiles.FieldFile)
+    ff._field = field
+    ff._reclen = L
+    ff._fhandle = _FH()
+    ff._readahead = []
+    f._field_file = ff
+    f._recpos = 0
+    f.filetype = b'D'
+    f.mode = b'R'
+    return f, old, fb, field
+
+
+def _record(cells, m, L):
+    """Record m of a file: its bytes, zero-padded (partial or missing records read as zeros)."""
+    r = cells[(m - 1) * L: m * L]
+    return r + [0] * (L - len(r))
+
+
+def t_contents(E, L, flen, nmax):
+    f, old, fb, field = _content_file(E, L, flen)
+    n = E.int('record', 1, nmax)
+    n = E.concretize(n)
+    r = E.call(f.put, n)
+    E.prove(not r.raised, 'PUT succeeds')
+    if r.raised:
+        return
+    now = list(f._fhandle.cells)
+    want_len = max(flen, n * L)
+    E.prove(len(now) == want_len, 'LOF is max(old length, n*L)')
+    want = list(old) + [0] * (want_len - flen)
+    want[(n - 1) * L: n * L] = fb
+    if len(now) == want_len:
+        E.prove(cells_equal(now, want), 'the file is the old file, zero-extended, with exactly record n replaced by the field buffer')
+    # every record reads back: the one written is the buffer, the others what the file held
+    for m in range(1, want_len // L + 3):
+        g = E.call(f.get, m)
+        E.prove(not g.raised, 'GET succeeds')
+        got = list(to_cells(field._buffer))
+        E.prove(len(got) == L and bool(cells_equal(got, _record(want, m, L))),
+                'GET %s returns %s' % ('of the record written' if m == n else 'of another record',
+                                       'the bytes that were PUT' if m == n else 'that record unchanged (zeros beyond the end)'))
+        E.prove(f._recpos == m, 'LOC follows')
+    E.prove(len(f._fhandle.cells) == want_len, 'GET never changes the file length')
+
+
 TASKS = [
+    Task('RandomFile put/get contents', t_contents,
+         cases=[{'L': L, 'flen': fl, 'nmax': nm} for L, fl, nm in ((1, 0, 3), (3, 0, 3), (3, 6, 4), (3, 7, 5), (4, 9, 5), (2, 5, 6), (128, 130, 3))]),
     Task('RandomFile.put', t_put, cases=[{'explicit': e} for e in (True, False)]),
     Task('RandomFile.get', t_get, cases=[{'explicit': e} for e in (True, False)], covers=('beyond', 'inside')),
     Task('RandomFile.lof/loc', t_lof),
@@ -180,4 +257,4 @@ ASSUMPTIONS = [
     'locks by contract (C26); safe_io() is the real context manager run natively (it only maps host I/O errors)',
     '_check_pos: the float rounding int(round(to_single(x).to_value())) is abstracted to the identity on integers (C03 for |n| < 2^24)',
 ]
-NOT_COVERED = ['FIELD / LSET / RSET buffers (C09/C10)', 'record contents byte for byte (content of the host file is not modelled)']
+NOT_COVERED = ['FIELD / LSET / RSET buffers (C09/C10)', 'text-file operations on the field buffer (PRINT#, INPUT# on a random file)']
